@@ -544,15 +544,20 @@ func parseLay(items []vlib.Sx) (layCase, error) {
 	return c, nil
 }
 
-// numGlyphs: length of the slice Font.GlyphWidth indexes; -1 = no limit.
+// numGlyphs: Font.NumGlyphs() of the font goOutlines builds.
 func (f fontT) numGlyphs() int {
 	if f.Outl == "glyf-nil" {
-		return -1
+		return 1
 	}
 	return len(f.Widths)
 }
 
+// baseAdvance: 0 for a glyph the font does not have (it gets no width,
+// fixes/C07-layout-gid-beyond-font.diff), 0 for GDEF marks, the width otherwise.
 func (f fontT) baseAdvance(gid int) int {
+	if gid >= f.numGlyphs() {
+		return 0
+	}
 	if f.Gdef != nil && f.Gdef[gid] == 3 {
 		return 0
 	}
@@ -650,25 +655,19 @@ func (c layCase) run() (impl, fail, sig string, err error) {
 	}
 
 	gids := make([]int, len(c.Runes))
-	inRange := true
-	ng := c.Font.numGlyphs()
 	for i, r := range c.Runes {
 		gids[i] = c.Font.Cmap[r]
-		if ng >= 0 && gids[i] >= ng && !(c.Font.Gdef != nil && c.Font.Gdef[gids[i]] == 3) {
-			inRange = false
-		}
 	}
 	if obs == "panic" {
-		if inRange && c.Font.noRuleApplies(gids) {
-			return obs, "Layout panicked on a font whose cmap stays inside the glyph set", "c15-layout-panic", nil
-		}
-		return obs, "", "", nil
+		// every font built here has one width per glyph: nothing may panic,
+		// whatever the cmap and the substitutions produce
+		return obs, "Layout panicked", "c15-layout-panic", nil
 	}
 	out := seqs[0]
 	if string(textOf(out)) != s {
 		return obs, "the text of the glyphs is not the input string", "c15-layout-text", nil
 	}
-	if inRange && c.Font.noRuleApplies(gids) {
+	if c.Font.noRuleApplies(gids) {
 		// the property, directly: one glyph per character carrying that
 		// character and the font's advance (0 for GDEF marks)
 		exp := make([]expGlyph, len(gids))
@@ -880,10 +879,8 @@ func (c rlayCase) expected(fixed bool) (exp []expGlyph, ok bool) {
 	for i := range seq {
 		g := seq[i].gid
 		isMark := c.Gdef != nil && c.Gdef[g] == 3
-		if !isMark {
-			if g >= n {
-				return nil, false
-			}
+		if !isMark && g < n {
+			// a glyph the font does not have gets no width
 			seq[i].adv = c.Widths[g]
 		}
 	}
@@ -977,10 +974,7 @@ func (c rlayCase) run() (impl, fail, sig string, fixed bool, err error) {
 	}
 	exp, ok := c.expected(fixed)
 	if obs == "panic" {
-		if ok {
-			return obs, "Layout panicked", "c15-layout-panic", fixed, nil
-		}
-		return obs, "", "", fixed, nil
+		return obs, "Layout panicked", "c15-layout-panic", fixed, nil
 	}
 	out := seqs[0]
 	if string(textOf(out)) != s {
